@@ -377,25 +377,8 @@ def check(c, tier, replay):
 def composition_stage(c):
     """thorough tier: the REAL default chain with flow + isolation + hot-parameter + breaker rules on one resource, judged against
     the composed specification (checks/COMPOSE.py, spec/SentinelOps.tla): first blocking slot wins, nothing after it runs"""
-    import subprocess, sys
-    evd = os.path.join(c.scratch, 'compose-ev')
-    env = dict(os.environ, VERIF_EVIDENCE_DIR=evd, VERIF_SEED=str(c.seed))
-    p = subprocess.run([os.path.join(os.path.dirname(os.path.dirname(os.path.abspath(__file__))), 'bin', 'check'), 'COMPOSE', 'quick'],
-                       env=env, stdout=subprocess.PIPE, stderr=subprocess.STDOUT, text=True, timeout=3000)
-    lines = p.stdout.splitlines()
-    if p.returncode == 1:
-        for i, l in enumerate(lines):
-            if l.startswith('VIOLATION'):
-                rp = l.split('replay=')[-1]
-                c.violation('composition stage (default chain, all rule kinds on one resource): ' + (lines[i + 1].strip() if i + 1 < len(lines) else ''), rp)
-    elif p.returncode != 0:
-        c.inconclusive.append('composition stage did not complete: ' + p.stdout[-600:])
-    try:
-        ev = json.load(open(os.path.join(evd, 'COMPOSE.json')))['coverage']
-        c.cov['composition_stage'] = {k: ev[k] for k in ('states', 'transitions', 'traces_validated_against_impl', 'evaluations', 'distinct_nontrivial') if k in ev}
-        c.log('composition stage: %s' % c.cov['composition_stage'])
-    except Exception:
-        pass
+    import stages
+    stages.run_stage(c, 'COMPOSE', 'composition_stage')
 
 
 main('C16', check)
